@@ -1,4 +1,5 @@
 import DesperProofs.Lemmas.WorldDead
+import DesperProofs.Lemmas.WorldReact
 /-
   C05 — Deferred entity deletion is applied at the next process, safely.
 
@@ -140,10 +141,52 @@ theorem C05_no_sticky_failure (U : Universe) [U.Passive] (s : St) (dt : String)
   intro s' h1 h2
   simp [clearDead, h1, h2, isPerm, nodupB, sweep]
 
+/-! ### `delete_entity` called from inside callbacks (no `U.Passive` anywhere below)
+
+A callback — `on_remove` of an owner deleting what it owns, a processor, a plain event callback —
+may itself call `delete_entity(x)`, also while the sweep at the start of `process()` is running.
+The two steps are the same: at once `x` stops existing, and the mark stays — through the rest of
+that sweep, through the processors of that frame, through any later operation that only handles
+events — until `x` has lost all of its components. -/
+
+/-- the callback's own `delete_entity(x)` takes effect at once, whether the callback then returns or
+raises: `x` is awaiting deletion and does not exist for `entity_exists` / `entities` -/
+theorem C05_callback_delete_marks (U : Universe) (s : St) (o : Obj) (m : String) (en : Entry) (x : Ent)
+    (h : U.reacts o m ((Dict.get? s.calls (o, m)).getD 0) = some x) :
+    x ∈ (callCb U s o m en).1.dead ∧ entityExists (callCb U s o m en).1 x = false ∧
+    x ∉ entities (callCb U s o m en).1 ∧ ∀ e', row (callCb U s o m en).1 e' = row s e' := by
+  have hm := callCb_marks U s o m en x h
+  refine ⟨hm, ?_, ?_, fun e' => row_of_ents (callCb_tables U s o m en).ents e'⟩
+  · simp [entityExists, hm]
+  · simp [entities, hm]
+
+/-- a mark that is there at any moment of the sweep (made before it, or by a callback of an entity
+swept earlier in the same pass) is still there when the sweep ends — completed or cut short by an
+exception — unless that entity has no component left; in particular the sweep never wipes the
+marks made while it runs -/
+theorem C05_marks_survive_sweep (U : Universe) (s : St) (es : List Ent) (x : Ent) (hx : x ∈ s.dead) :
+    x ∈ (sweep U s es).1.dead ∨ row (sweep U s es).1 x = [] :=
+  (keep_sweep U s es).dead x hx
+
+/-- the same for the removal of one entity's components (immediate deletion, one sweep step) and
+for a single `remove_component` -/
+theorem C05_marks_survive_removal (U : Universe) (s : St) (e : Ent) (ts : List Ty) (t : Ty) (x : Ent)
+    (hx : x ∈ s.dead) :
+    (x ∈ (removeTypes U s e ts).1.dead ∨ row (removeTypes U s e ts).1 x = []) ∧
+    (x ∈ (removeComponent U s e t).1.dead ∨ row (removeComponent U s e t).1 x = []) :=
+  ⟨(keep_removeTypes U s e ts).dead x hx, (keep_removeComponent U s e t).dead x hx⟩
+
+/-- processors and their `on_update` relays never unmark anything (and may mark more) -/
+theorem C05_marks_survive_processors (U : Universe) (s : St) (dt : String) (ps : List Obj) (x : Ent)
+    (hx : x ∈ s.dead) : x ∈ (runProcs U s dt ps).1.dead :=
+  (runProcs_tables U s dt ps).deadMono x hx
+
 /-! non-vacuity: delete, strip the entity component by component before the frame, process twice -/
 private def exU : Universe :=
   { classes := [{ bases := [] }], mapping := fun _ => none, objTy := fun _ => some 0,
     raises := fun _ _ _ => none }
+
+instance : exU.Passive := ⟨fun _ _ _ => rfl⟩
 
 example : NoRaise exU ∧ GoodHist exU {} [.create none [0], .delete 1 false, .remove 1 0] ∧
     (process exU (run exU {} [.create none [0], .delete 1 false, .remove 1 0]) "1").2 = .ok ∧
@@ -152,4 +195,23 @@ example : NoRaise exU ∧ GoodHist exU {} [.create none [0], .delete 1 false, .r
   refine ⟨fun _ _ _ => rfl, ?_, by decide, by decide, by decide⟩
   refine ⟨trivial, by decide, ?_, by decide, trivial, by decide, trivial⟩
   show (Dict.get? (step exU {} (Op.create none [0])).1.ents 1).isSome = true
+  decide
+
+/-! non-vacuity of the re-entrant part: entity 1 owns a component whose `on_remove` deletes entity 2.
+`delete_entity(1)`; the next `process()` removes 1's component, whose callback marks 2 while the
+sweep is running: 2 stops existing at once, keeps its component for that frame, and loses it at the
+start of the following `process()`. -/
+private def petU : Universe :=
+  { classes := [{ bases := [] }, { bases := [] }],
+    mapping := fun t => if t = 0 then some [("on_remove", "on_remove")] else none,
+    objTy := fun o => some o,
+    raises := fun _ _ _ => none,
+    reacts := fun o m k => if o = 0 ∧ m = "on_remove" ∧ k = 0 then some 2 else none }
+
+example :
+    let s1 := run petU {} [.create none [0], .create none [1], .delete 1 false]
+    let s2 := (process petU s1 "1").1
+    let s3 := (process petU s2 "1").1
+    (process petU s1 "1").2 = .ok ∧ s2.dead = [2] ∧ entityExists s2 2 = false ∧ getComponents s2 2 = [1] ∧
+    getComponents s2 1 = [] ∧ (process petU s2 "1").2 = .ok ∧ s3.dead = [] ∧ getComponents s3 2 = [] := by
   decide
